@@ -56,13 +56,15 @@ for cls, mod in (('Server', 'server'), ('AsyncServer', 'async_server')):
     c.param('self', Ref(cls)).param('sid', STR).param('pkt', Ref('Packet'))
     c.requires('implies(sid in self.sockets, sock_wf(self.sockets[sid]))', 'socket-wf')
     c.requires('0 <= pkt.packet_type and pkt.packet_type <= 6', 'packet-type')
+    c.requires('packet_ok(pkt)', 'packet-wf')
     c.ensures('dead-id-is-silent-noop', 'implies(old(' + DEAD + '), events == old(events) and '
               'spawned == old(spawned) and (self.sockets == old(self.sockets) or '
               'self.sockets == dict_del(old(self.sockets), sid)))', props=['C16'])
     c.ensures('enqueued-on-that-session-once', 'implies(not old(' + DEAD + ') and '
               'not old(ping_expired(self.sockets[sid], now)), '
-              'self.sockets[sid].queue.accepted == old(self.sockets[sid].queue.accepted) + [pkt] '
-              'and self.sockets == old(self.sockets))', props=['C03'])
+              'self.sockets == old(self.sockets) and '
+              'self.sockets[sid].queue.accepted == old(self.sockets[sid].queue.accepted) + [pkt])',
+              props=['C03'])
     c.modifies('self.sockets', 'Socket.closing', 'Socket.closed', 'Queue.items', 'Queue.unf',
                'Queue.taken', 'Queue.accepted', 'Queue.put_none', 'Queue.taken_none',
                'ghost.events', 'ghost.now', 'ghost.spawned')
@@ -125,3 +127,132 @@ c.modifies('self.sockets', 'self.sequence_number', 'self.start_service_task',
            'self.service_task_handle', 'ghost.csprng', 'ghost.events', 'ghost.spawned',
            'ghost.now', 'ghost.ws_log', 'ghost.received', 'ghost.sr_log', 'ghost.sr_headers',
            'Packet.encode_cache')      # the new socket, its queue and packets are fresh objects
+
+# ----------------------------------------------------------------------------------- disconnect
+TABLE_WF = 'all_values(self.sockets, lambda s: sock_wf(s))'
+SRV_MOD = ['self.sockets', 'Socket.closing', 'Socket.closed', 'Queue.items', 'Queue.unf',
+           'Queue.taken', 'Queue.accepted', 'Queue.put_none', 'Queue.taken_none',
+           'ghost.events', 'ghost.now', 'ghost.spawned']
+c = REG.contract('server.Server.disconnect', props=['C05', 'C15', 'C16'])
+c.param('self', Ref('Server')).param('sid', [NONE, STR])
+c.requires(TABLE_WF, 'sockets-wf')
+c.ensures('dead-id-is-silent-noop', 'implies(sid is not None and old(' + DEAD + '), '
+          'events == old(events) and (self.sockets == old(self.sockets) or '
+          'self.sockets == dict_del(old(self.sockets), sid)))', props=['C16'])
+c.ensures('live-session-closed-and-removed', 'implies(sid is not None and not old(' + DEAD + '), '
+          'sid not in self.sockets and old(self.sockets)[sid].closing and '
+          'dict_del(self.sockets, sid) == dict_del(old(self.sockets), sid))',
+          props=['C05', 'C16'])
+c.ensures('server-disconnect-reason', "implies(sid is not None and not old(" + DEAD + ") and "
+          "not old(self.sockets[sid].closing) and 'disconnect' in self.handlers, "
+          "one_disconnect(events, old(events), self.handlers['disconnect'], sid, "
+          "'server disconnect'))", props=['C05'])
+c.ensures('all-sessions-removed', 'implies(sid is None, len(self.sockets) == 0)', props=['C16'])
+c.ensures('events-only-grow', 'grows(events, old(events))')
+c.modifies(*SRV_MOD)
+c.loop(0, index='i', invariants=[('events-only-grow', 'grows(events, old(events))'),
+                                  ('sockets-wf', TABLE_WF)],
+       modifies=['Socket.closing', 'Socket.closed', 'Queue.items', 'Queue.unf', 'Queue.taken',
+                 'Queue.accepted', 'Queue.put_none', 'Queue.taken_none', 'ghost.events',
+                 'ghost.now', 'ghost.spawned'])
+
+for cls, mod in (('Server', 'server'), ('AsyncServer', 'async_server')):
+    c = REG.contract('%s.%s.send' % (mod, cls), props=['C03', 'C15', 'C16'])
+    c.param('self', Ref(cls)).param('sid', STR).param('data', ANY)
+    c.requires('implies(sid in self.sockets, sock_wf(self.sockets[sid]))', 'socket-wf')
+    c.requires('api_payload(4, data)', 'api-payload')
+    c.ensures('dead-id-is-silent-noop', 'implies(old(' + DEAD + '), events == old(events) and '
+              'spawned == old(spawned) and (self.sockets == old(self.sockets) or '
+              'self.sockets == dict_del(old(self.sockets), sid)))', props=['C16'])
+    c.ensures('one-message-enqueued-on-that-session', 'implies(not old(' + DEAD + ') and '
+              'not old(ping_expired(self.sockets[sid], now)), '
+              'self.sockets == old(self.sockets) and '
+              'len(self.sockets[sid].queue.accepted) == '
+              'len(old(self.sockets[sid].queue.accepted)) + 1 and '
+              'self.sockets[sid].queue.accepted[len(old(self.sockets[sid].queue.accepted))]'
+              '.packet_type == 4 and '
+              'self.sockets[sid].queue.accepted[len(old(self.sockets[sid].queue.accepted))]'
+              '.data == data)', props=['C03'])
+    c.modifies('self.sockets', 'Socket.closing', 'Socket.closed', 'Queue.items', 'Queue.unf',
+               'Queue.taken', 'Queue.accepted', 'Queue.put_none', 'Queue.taken_none',
+               'ghost.events', 'ghost.now', 'ghost.spawned')
+    for nm in ('get_session', 'save_session'):
+        c = REG.contract('%s.%s.%s' % (mod, cls, nm), props=['C16'])
+        c.param('self', Ref(cls)).param('sid', STR)
+        if nm == 'save_session':
+            c.param('session', ANY)
+        else:
+            c.returns(ANY)
+        c.raises('KeyError', DEAD, label='dead-id-raises', ensures=[
+            ('no-other-session-touched', "unchanged('BaseSocket.session') and "
+             "(self.sockets == old(self.sockets) or "
+             "self.sockets == dict_del(old(self.sockets), sid))")], props=['C16'])
+        if nm == 'get_session':
+            c.ensures('own-session-data', 'result == self.sockets[sid].session')
+            c.ensures('nothing-changes', "unchanged('BaseSocket.session') and "
+                      "self.sockets == old(self.sockets)")
+            c.modifies('self.sockets')
+        else:
+            c.ensures('stored-on-that-session-only', 'self.sockets[sid].session == session and '
+                      'self.sockets == old(self.sockets)')
+            c.modifies('self.sockets', 'self.sockets[sid].session')
+
+# ------------------------------------------------------------------------------- handle_request
+from .c_base_server import CFG_OK  # noqa: E402
+NOTHING = ("self.sockets == old(self.sockets) and events == old(events) and "
+           "spawned == old(spawned) and csprng == old(csprng) and received == old(received) and "
+           "unchanged('Queue.items', 'Queue.taken', 'Queue.accepted', 'BaseSocket.closing', "
+           "'BaseSocket.closed', 'BaseSocket.upgraded', 'BaseSocket.upgrading', "
+           "'BaseSocket.connected')")
+NOTHING_BUT_REAPING = NOTHING.replace(
+    "self.sockets == old(self.sockets) and",
+    "(self.sockets == old(self.sockets) or (q_sid(environ) is not None and "
+    "self.sockets == dict_del(old(self.sockets), q_sid(environ)))) and")
+c = REG.contract('server.Server.handle_request', props=['C12', 'C13', 'C15', 'C19', 'C03', 'C04'])
+c.shards = 12
+c.param('self', Ref('Server')).param('environ', ENV).param('start_response', SR)
+c.returns_cases(('http-response', 'True', List(BYTES)),
+                ('websocket-session', 'is_websocket_request(self, environ)', QI))
+c.requires(SERVER_WF, 'server-wf')
+c.requires(TABLE_WF, 'sockets-wf')
+c.requires(CFG_OK, 'cors-config-shape')
+c.requires("'REQUEST_METHOD' in environ", 'gateway-environ')
+c.requires("'connect' in self.handlers and handler_accepts(self.handlers['connect'], 2)",
+           'connect-handler-registered')
+c.requires("all_values(self.sockets, lambda s: not s.upgrading)", 'no-upgrade-in-progress')
+c.requires("'wsgi.input' in environ and ('CONTENT_LENGTH' not in environ or "
+           "(int_ok(environ['CONTENT_LENGTH']) and int(environ['CONTENT_LENGTH']) >= 0))",
+           'gateway-body')
+c.requires('len(sr_log) == 0', 'fresh-request')
+c.may_raise('Exception', 'is_websocket_request(self, environ)', label='websocket-driver-error',
+            props=['C15'])
+c.ensures('origin-gate-first', "implies(origin_refused(self.cors_allowed_origins, environ), "
+          "sr_log == ['400 BAD REQUEST'] and " + NOTHING + ")", props=['C13'])
+c.ensures('refused-400-has-no-effect', "implies(not origin_refused(self.cors_allowed_origins, "
+          "environ) and refusal(self, environ) == 400, sr_log == ['400 BAD REQUEST'] and " +
+          NOTHING_BUT_REAPING + ")", props=['C12'])
+c.ensures('refused-405-has-no-effect', "implies(not origin_refused(self.cors_allowed_origins, "
+          "environ) and refusal(self, environ) == 405, sr_log == ['405 METHOD NOT FOUND'] and " +
+          NOTHING + ")", props=['C12'])
+c.ensures('one-well-formed-response', "implies(not is_websocket_request(self, environ), "
+          "len(sr_log) == 1 and sr_log[0] in ('200 OK', '400 BAD REQUEST', '401 UNAUTHORIZED', "
+          "'405 METHOD NOT FOUND') and len(result) == 1)", props=['C15'])
+c.modifies('self.sockets', 'self.sequence_number', 'self.start_service_task',
+           'self.service_task_handle', 'Socket.closing', 'Socket.closed', 'Socket.connected',
+           'Socket.upgraded', 'Socket.upgrading', 'Queue.items', 'Queue.unf', 'Queue.taken',
+           'Queue.accepted', 'Queue.put_none', 'Queue.taken_none', 'Packet.encode_cache',
+           'ghost.csprng', 'ghost.events', 'ghost.spawned', 'ghost.now', 'ghost.ws_log',
+           'ghost.received', 'ghost.reads', 'ghost.sr_log', 'ghost.sr_headers')
+c.loop(1, index='i', invariants=[('true', 'True')], modifies=['r'])
+NOT_GATED = 'not origin_refused(self.cors_allowed_origins, environ)'
+c.cut('if not isinstance(r, dict):', [
+    ('no-response-yet', 'len(sr_log) == 0'),
+    ('refused-400', 'implies(' + NOT_GATED + " and refusal(self, environ) == 400, "
+     "r['status'] == '400 BAD REQUEST' and " + NOTHING_BUT_REAPING + ')'),
+    ('refused-405', 'implies(' + NOT_GATED + " and refusal(self, environ) == 405, "
+     "r['status'] == '405 METHOD NOT FOUND' and " + NOTHING + ')'),
+    ('gate-passed', NOT_GATED),
+    ('non-dict-only-for-websocket', 'isinstance(r, dict) or is_websocket_request(self, environ)'),
+    ('status-line', "implies(isinstance(r, dict), r['status'] in ('200 OK', '400 BAD REQUEST', "
+     "'401 UNAUTHORIZED', '405 METHOD NOT FOUND'))"),
+])
